@@ -517,6 +517,142 @@ theorem u1000_ignores_iff (g : Directive) (file : String) (line col : Nat) (msg 
 example : u1000Ignores ⟨"ignore", ["u1*", "why"], ⟨"a.go", 4, 1⟩, ⟨"a.go", 5, 1⟩⟩ "a.go" 5 = true ∧
     u1000Ignores ⟨"ignore", ["U1000"], ⟨"a.go", 4, 1⟩, ⟨"a.go", 5, 1⟩⟩ "a.go" 5 = false := by decide
 
+/-! ### the `ignores` map of unused/unused.go (transliterated loop `u1000Keys`) -/
+
+theorem lower_U1000 : lower "U1000" = "u1000" := by decide
+
+theorem checksMatch_checksOf_U1000 (a0 : String) :
+    checksMatch (checksOf a0) "U1000" =
+      (splitOnChar ',' a0).any (fun check => glob (lower check) "u1000") := by
+  simp [checksMatch, checksOf, List.any_map, lower_U1000, Function.comp_def]
+
+/-- the key a directive puts into `ignores` covers `file:line` iff `u1000Ignores` says so -/
+theorem u1000Key_iff (g : Directive) (file : String) (line : Nat) :
+    (u1000Key g = some (file, some line) ∨ u1000Key g = some (file, none)) ↔
+      u1000Ignores g file line = true := by
+  unfold u1000Key u1000Ignores
+  by_cases hi : g.cmd = "ignore"
+  · cases hf : firstOfTwo g.args with
+    | none => simp [hi]
+    | some a0 =>
+      simp only [checksMatch_checksOf_U1000]
+      by_cases hm : (splitOnChar ',' a0).any (fun check => glob (lower check) "u1000") = true
+      · simp [hi, hm]
+      · simp [hi, hm]
+  · by_cases hfi : g.cmd = "file-ignore"
+    · cases hf : firstOfTwo g.args with
+      | none => simp [hfi]
+      | some a0 =>
+        simp only [checksMatch_checksOf_U1000]
+        by_cases hm : (splitOnChar ',' a0).any (fun check => glob (lower check) "u1000") = true
+        · simp [hfi, hm]
+        · simp [hfi, hm]
+    · simp [hi, hfi]
+
+theorem u1000_used_iff (dirs : List Directive) (file : String) (line : Nat) :
+    u1000Used (u1000Keys dirs) file line = true ↔ ∃ g ∈ dirs, u1000Ignores g file line = true := by
+  unfold u1000Used u1000Keys
+  simp only [Bool.or_eq_true, List.contains_iff_mem, List.mem_filterMap]
+  constructor
+  · rintro (⟨g, hg, hk⟩ | ⟨g, hg, hk⟩)
+    · exact ⟨g, hg, (u1000Key_iff g file line).1 (Or.inl hk)⟩
+    · exact ⟨g, hg, (u1000Key_iff g file line).1 (Or.inr hk)⟩
+  · rintro ⟨g, hg, hu⟩
+    rcases (u1000Key_iff g file line).2 hu with hk | hk
+    · exact Or.inl ⟨g, hg, hk⟩
+    · exact Or.inr ⟨g, hg, hk⟩
+
+/-- **C10, U1000**: the loop of `unused.(*graph).entry` marks the object declared at
+`file:line` as used because of a directive iff some directive of the package would suppress a
+`U1000` problem at that position by the rule that holds for every other check: reason
+present, same file, same line unless it is a file directive, one of its names glob-matching
+`u1000` after case folding.  (What else becomes used through that object is the U1000 graph's
+business and outside this model — the statement's "U1000 aside".) -/
+theorem u1000_marked_iff (dirs : List Directive) (objs : List (String × Nat)) (file : String)
+    (line col : Nat) (msg : String) (s : Sev) :
+    (file, line) ∈ u1000Marked dirs objs ↔
+      (file, line) ∈ objs ∧ ∃ g ∈ dirs, g.Suppresses ⟨⟨file, line, col⟩, msg, "U1000", s⟩ := by
+  unfold u1000Marked
+  simp only [List.mem_filter, u1000_used_iff, u1000_ignores_iff _ file line col msg s]
+
+example :
+    u1000Marked [⟨"ignore", ["sa4000,U10*", "why"], ⟨"a.go", 4, 1⟩, ⟨"a.go", 5, 1⟩⟩,
+                 ⟨"file-ignore", ["u1000", "generated"], ⟨"b.go", 1, 1⟩, ⟨"b.go", 3, 1⟩⟩,
+                 ⟨"ignore", ["U1000"], ⟨"a.go", 6, 1⟩, ⟨"a.go", 7, 1⟩⟩]
+      [("a.go", 5), ("a.go", 7), ("a.go", 9), ("b.go", 7), ("c.go", 5)] =
+      [("a.go", 5), ("b.go", 7)] := by decide
+
+/-- **C10, a U1000 directive without a reason suppresses nothing** in the U1000 graph either:
+it contributes no key to `ignores`. -/
+theorem u1000_no_reason (pre post : List Directive) (g : Directive) (hargs : g.args.length < 2) :
+    u1000Keys (pre ++ g :: post) = u1000Keys (pre ++ post) := by
+  have : u1000Key g = none := by
+    unfold u1000Key
+    rcases hg : g.args with _ | ⟨x, _ | ⟨y, r⟩⟩
+    · simp [firstOfTwo]
+    · simp [firstOfTwo]
+    · rw [hg] at hargs; simp at hargs; omega
+  simp [u1000Keys, List.filterMap_append, this]
+
+example : u1000Keys [⟨"ignore", ["U1000"], ⟨"a.go", 4, 1⟩, ⟨"a.go", 5, 1⟩⟩] = [] ∧
+    u1000Keys [⟨"ignore", ["U1000", "r"], ⟨"a.go", 4, 1⟩, ⟨"a.go", 5, 1⟩⟩] = [("a.go", some 5)] := by
+  decide
+
+/-! ### the comment text: `analysis/lint.parseDirective` -/
+
+/-- `strings.Join` on character lists -/
+def joinChars (sep : Char) : List (List Char) → List Char
+  | [] => []
+  | [x] => x
+  | x :: y :: r => x ++ sep :: joinChars sep (y :: r)
+
+theorem splitChars_nosep (sep : Char) (x : List Char) (hx : sep ∉ x) : splitChars sep x = [x] := by
+  induction x with
+  | nil => rfl
+  | cons c cs ih =>
+    have hc : c ≠ sep := fun h => hx (by simp [h])
+    have hcs : sep ∉ cs := fun h => hx (List.mem_cons_of_mem _ h)
+    simp [splitChars, hc, ih hcs]
+
+theorem splitChars_append_sep (sep : Char) (x rest : List Char) (hx : sep ∉ x) :
+    splitChars sep (x ++ sep :: rest) = x :: splitChars sep rest := by
+  induction x with
+  | nil => simp [splitChars]
+  | cons c cs ih =>
+    have hc : c ≠ sep := fun h => hx (by simp [h])
+    have hcs : sep ∉ cs := fun h => hx (List.mem_cons_of_mem _ h)
+    simp [splitChars, hc, ih hcs]
+
+theorem splitChars_join (sep : Char) (x : List Char) (xs : List (List Char))
+    (h : ∀ y ∈ x :: xs, sep ∉ y) : splitChars sep (joinChars sep (x :: xs)) = x :: xs := by
+  induction xs generalizing x with
+  | nil => exact splitChars_nosep sep x (h x List.mem_cons_self)
+  | cons y ys ih =>
+    simp only [joinChars]
+    rw [splitChars_append_sep sep x _ (h x List.mem_cons_self)]
+    rw [ih y (fun z hz => h z (List.mem_cons_of_mem _ hz))]
+
+theorem stripPrefix_append (p s : List Char) : stripPrefix p (p ++ s) = some s := by
+  induction p with
+  | nil => cases s <;> rfl
+  | cons c cs ih => simp [stripPrefix, ih]
+
+/-- **C10, reading the comment**: a comment `//lint:<cmd> <field> … <field>` whose fields are
+separated by single spaces is read as exactly that command and those fields; so the
+directive has a reason (is well-formed for `parseDirectives`) iff at least two fields follow
+the command — `//lint:ignore SA4000` alone is malformed whatever the names are. -/
+theorem parseDirectiveText_fields (cmd : List Char) (args : List (List Char))
+    (h : ∀ y ∈ cmd :: args, ' ' ∉ y) :
+    parseDirectiveText (String.ofList ("//lint:".toList ++ joinChars ' ' (cmd :: args))) =
+      some (String.ofList cmd, args.map String.ofList) := by
+  unfold parseDirectiveText
+  simp only [String.toList_ofList, stripPrefix_append, splitChars_join ' ' cmd args h, List.map_cons]
+
+example : parseDirectiveText "//lint:ignore SA4000,U1000 some reason" =
+    some ("ignore", ["SA4000,U1000", "some", "reason"]) ∧
+    parseDirectiveText "//lint:ignore SA4000" = some ("ignore", ["SA4000"]) ∧
+    parseDirectiveText "// lint:ignore SA4000 r" = none := by decide
+
 /-! ### sanity of the glob model -/
 
 theorem anySuffix_of_nil (f : List Char → Bool) (h : f [] = true) (s : List Char) :
